@@ -800,6 +800,7 @@ def generate_past():
 DENSE_INTER = "rtamt/semantics/stl/dense_time/offline/intersection.py"
 DENSE_VISITOR = "rtamt/semantics/stl/dense_time/offline/ast_visitor.py"
 OUT_DENSE = os.path.join(os.path.dirname(HERE), "lean", "Rtamt", "Py", "GeneratedDense.lean")
+DENSE_IA_VISITOR = "rtamt/semantics/iastl/dense_time/offline/ast_visitor.py"
 
 
 class _Subst(ast.NodeTransformer):
@@ -869,7 +870,7 @@ class DnTr:
         un = lambda: "(.unsupported %s)" % q(t)
         if self.visitor:
             special = {"node.operator.value": "$operator", "node.val": "$val", "node.field": "$field",
-                       "self.ast.var_object_dict[node.var]": "$var"}
+                       "self.ast.var_object_dict[node.var]": "$var", "node.out_vars": "$out_vars", "node.in_vars": "$in_vars"}
             if t in special:
                 return "(.loc %s)" % q(special[t])
             if isinstance(e, ast.Attribute) and e.attr == "value" and isinstance(e.value, ast.Attribute) \
@@ -976,6 +977,11 @@ class DnTr:
         un = "(.unsupported %s)" % q(t)
         if isinstance(st, ast.Pass):
             return ".skip"
+        if isinstance(st, ast.Assign) and len(st.targets) == 1 and isinstance(st.value, ast.IfExp) and self.target_name(st.targets[0]):
+            # x = a if c else b
+            tg = q(self.target_name(st.targets[0]))
+            return "(.ite %s (.setLoc %s %s) (.setLoc %s %s))" % (self.expr(st.value.test), tg, self.expr(st.value.body), tg,
+                                                                  self.expr(st.value.orelse))
         if isinstance(st, ast.Assign) and len(st.targets) == 1:
             tg = st.targets[0]
             nm = self.target_name(tg)
@@ -1112,6 +1118,49 @@ def generate_dense():
             name, q(name), ", ".join(q(k) for k in kids), "true" if interval else "false", tr.block(body)))
         lines.append("")
         names.append(name)
+    # the interface-aware subclasses (robustness semantics): `visitPredicate` with the parent's method inlined
+    ia_names = []
+    try:
+        itree = ast.parse(open(os.path.join(REPO, DENSE_IA_VISITOR)).read())
+        icls = {n.name: n for n in itree.body if isinstance(n, ast.ClassDef)}
+        parent = [m for m in icls["IAStlDenseTimeOfflineAstVisitor"].body if isinstance(m, ast.FunctionDef) and m.name == "visitPredicate"][0]
+        for cname, short in (("IAStlOutputRobustnessDenseTimeOfflineAstVisitor", "visitPredicate_outRob"),
+                             ("IAStlInputRobustnessDenseTimeOfflineAstVisitor", "visitPredicate_inRob")):
+            child = [m for m in icls[cname].body if isinstance(m, ast.FunctionDef) and m.name == "visitPredicate"][0]
+            first = child.body[0]
+            pret = parent.body[-1]
+            ok = (isinstance(first, ast.Assign) and isinstance(first.targets[0], ast.Tuple) and len(first.targets[0].elts) == 2
+                  and src(first.value).replace(" ", "") == "IAStlDenseTimeOfflineAstVisitor.visitPredicate(self,node,*args,**kwargs)"
+                  and isinstance(pret, ast.Return) and isinstance(pret.value, ast.Tuple) and len(pret.value.elts) == 2)
+            kids, body = [], []
+            for st in parent.body[:-1]:
+                if isinstance(st, ast.Assign) and len(st.targets) == 1 and isinstance(st.targets[0], ast.Name) \
+                        and isinstance(st.value, ast.Call) and src(st.value.func) == "self.visit" and not body:
+                    kids.append(st.targets[0].id)
+                    continue
+                body.append(st)
+            if ok:
+                import copy
+                # `a, b = Parent.visitPredicate(...)`: the two returned lists are bound to the child's names
+                for tgt, val in zip(first.targets[0].elts, pret.value.elts):
+                    if src(tgt) != src(val):
+                        body.append(ast.parse("%s = %s" % (src(tgt), src(val))).body[0])
+                body += list(child.body[1:])
+                fake = copy.copy(child)
+                fake.body = body
+                tr = DnTr(fake, funcs, visitor=True)
+                btxt = tr.block(body)
+            else:
+                btxt = "(.unsupported %s)" % q("shape of " + cname + ".visitPredicate")
+            lines.append("def %s : DMethod :=\n  { name := %s, kids := [%s], interval := false, body := %s }" % (
+                short, q(short), ", ".join(q(k) for k in kids), btxt))
+            lines.append("")
+            ia_names.append(short)
+    except (OSError, KeyError, IndexError) as e:
+        lines.append("-- interface-aware visitors not found: %s" % e)
+    lines.append("/-- `visitPredicate` of the interface-aware robustness visitors (rtamt/semantics/iastl/dense_time/offline), parent inlined -/")
+    lines.append("def iaMethods : List (String × DMethod) := [%s]" % ", ".join("(%s, %s)" % (q(n), n) for n in ia_names))
+    lines.append("")
     lines.append("/-- the methods the class `StlDenseTimeOfflineAstVisitor` defines, by name -/")
     lines.append("def methods : List (String × DMethod) := [%s]" % ", ".join("(%s, %s)" % (q(n), n) for n in names))
     lines.append("")
